@@ -9,6 +9,7 @@ package mcap
 
 import (
 	"os"
+	"runtime"
 	"strconv"
 	"strings"
 )
@@ -181,10 +182,49 @@ func vObserve(label string, v uint64) {
 
 func vIdealCRC()               {}
 func vFreeMapOrder(on bool)    {}
-func vAllocLimit(n int)        { vAllocCeiling = uint64(n) }
+// vAllocLimit(n): from here on no single library allocation may exceed n bytes (engine: checked per allocation).
+// Natively single allocations cannot be observed; what can be measured exactly is the number of bytes allocated in
+// "large" objects (above the 32 KiB size class = above io.Copy's fixed buffer): a window opened by vAllocLimit(n)
+// with n >= 32 KiB is violated natively when more than n bytes of large objects were allocated inside it.
+func vAllocLimit(n int) {
+	vAllocWindowCheck()
+	vAllocCeiling = uint64(n)
+	if n >= 32768 && n < 1<<31-1 {
+		vWin.open, vWin.lim, vWin.large0 = true, uint64(n), vLargeBytes()
+	}
+}
+
+var vWin struct {
+	open       bool
+	lim        uint64
+	large0     uint64
+}
+
+func vLargeBytes() uint64 {
+	var ms runtime.MemStats
+	runtime.ReadMemStats(&ms)
+	var small uint64
+	for _, b := range ms.BySize {
+		small += uint64(b.Size) * b.Mallocs
+	}
+	if ms.TotalAlloc < small {
+		return 0
+	}
+	return ms.TotalAlloc - small
+}
+
+func vAllocWindowCheck() {
+	if vWin.open {
+		vWin.open = false
+		if d := vLargeBytes() - vWin.large0; d > vWin.lim && d < 1<<62 {
+			panic(vStop{"alloc", strconv.FormatUint(d, 10) + " bytes in large objects allocated inside a window limited to " + strconv.FormatUint(vWin.lim, 10)})
+		}
+	}
+}
 func vCut(why string)          { panic(vStop{"cut", why}) }
 func vEngine() bool            { return false }
 func vFork(c bool) bool        { return c }
+func vLoopBound(n int)         {}
 func vConcretize(x, max int) int { return x }
 func vBytesEq(a, b []byte) bool { return string(a) == string(b) }
 func vStrEq(a, b string) bool   { return a == b }
